@@ -2068,6 +2068,8 @@ dt_dcmp(struct dt_d_s d1, struct dt_d_s d2)
 	case DT_BIZDA:
 	case DT_YWD:
 	case DT_YD:
+	case DT_LDN:
+	case DT_MDN:
 		/* use arithmetic comparison */
 		if (d1.u == d2.u) {
 			return 0;
@@ -2076,6 +2078,9 @@ dt_dcmp(struct dt_d_s d1, struct dt_d_s d2)
 		} else /*if (d1.u > d2.u)*/ {
 			return 1;
 		}
+	case DT_JDN:
+		/* julian day numbers are floats */
+		return d1.jdn < d2.jdn ? -1 : d1.jdn > d2.jdn;
 	case DT_YMCW:
 		/* use designated thing since ymcw dates aren't
 		 * increasing */
